@@ -49,38 +49,26 @@ Section Ball.
         assert (0 <= 1 - c) by lra. nra.
   Qed.
 
-  (** L2BallIndicator.prox as the code computes it: radius * v / norm(v).
-      FULL STATEMENT (refuted for the unchanged code, see Findings/C02_L2Ball.v):
-        forall lam v, 0 < r -> IsProx inball (fun _ => 0) lam v (vscale (r / norm v) v).
-      It holds for v on or outside the sphere: *)
-  Theorem ball_code_prox_restricted lam v : 0 < r -> r <= norm v ->
-    IsProx inball (fun _ => 0) lam v (vscale (r / norm v) v).
+  (** L2BallIndicator.prox as the code computes it:
+      where(nrm <= radius, 1.0, radius / where(nrm > 0, nrm, 1.0)) * v  -- for ALL v
+      (inside, on, outside the sphere, v = 0) it is the projection *)
+  Definition ball_fac (nv : R) : R :=
+    if R_leb nv r then 1 else r / (if negb (R_leb nv 0) then nv else 1).
+
+  Lemma ball_code_is_proj v : 0 <= r -> vscale (ball_fac (norm v)) v = ball_proj v.
   Proof.
-    intros Hr Hv. pose proof (ball_spec_prox lam v ltac:(lra)) as H. unfold ball_proj in H.
-    destruct (R_leb (norm v) r) eqn:Eb; auto. apply R_leb_true in Eb.
-    assert (Hn : norm v = r) by lra. rewrite Hn. replace (r / r) with 1 by (field; lra).
-    now rewrite vscale_1.
+    intros Hr. unfold ball_fac, ball_proj. pose proof (norm_pos v).
+    destruct (R_leb (norm v) r) eqn:E1; [apply vscale_1|]. apply R_leb_false in E1.
+    destruct (R_leb (norm v) 0) eqn:E2; [apply R_leb_true in E2; lra|]. reflexivity.
   Qed.
 
-  (** and fails for every v strictly inside the ball (other than... all of them: the code's
-      point has norm r, the true prox is v itself) *)
-  Theorem ball_code_not_prox lam v : 0 < r -> 0 < norm v < r ->
-    ~ IsProx inball (fun _ => 0) lam v (vscale (r / norm v) v).
-  Proof.
-    intros Hr Hv [_ Hp]. specialize (Hp v ltac:(unfold inball; lra)). unfold obj in Hp.
-    rewrite vsub_self, nsq_vzero in Hp.
-    assert (Hc : 1 < r / norm v) by (apply div_gt_1; lra).
-    replace (vsub (vscale (r / norm v) v) v) with (vscale (r / norm v - 1) v) in Hp.
-    - rewrite nsq_scale, <- norm_sq in Hp.
-      assert (0 < (r / norm v - 1) * (r / norm v - 1) * (norm v * norm v)).
-      { repeat apply Rmult_lt_0_compat; lra. }
-      lra.
-    - apply veq_by_ip. ip_expand. generalize (ip v v). intros. nra.
-  Qed.
+  Theorem ball_code_prox lam v : 0 <= r ->
+    IsProx inball (fun _ => 0) lam v (vscale (ball_fac (norm v)) v).
+  Proof. intros Hr. rewrite ball_code_is_proj by auto. now apply ball_spec_prox. Qed.
 End Ball.
 
-Lemma ball_code_fac r nv (x : R) : ball_code r nv x = r / nv * x.
-Proof. unfold ball_code. rsimp. unfold Rdiv. ring. Qed.
+Lemma ball_code_fac r nv (x : R) : ball_code r nv x = ball_fac r nv * x.
+Proof. unfold ball_code, ball_fac_code, ball_fac. rsimp. reflexivity. Qed.
 
 (** ** Distance and squared distance to a closed convex set, given its metric projection *)
 Section SetDist.
